@@ -186,9 +186,11 @@ func runC08Round(dir string, g *rand.Rand, creators, nplugins, perCreator, faili
 			}
 		}(w)
 	}
-	// lifecycle events need no sync block: two goroutines relay StartContainer events meanwhile
+	// lifecycle events need no sync block: one goroutine relays StartContainer events meanwhile, a second one
+	// rotates through the eleven other request kinds (each has its own relay function in the adaptation)
 	evStop := make(chan struct{})
 	var ewg sync.WaitGroup
+	var otherKinds atomic.Int64
 	for e := 0; e < 2; e++ {
 		ewg.Add(1)
 		go func(e int) {
@@ -200,14 +202,24 @@ func runC08Round(dir string, g *rand.Rand, creators, nplugins, perCreator, faili
 				default:
 				}
 				id := fmt.Sprintf("%s-ev%d-%d", tag, e, i)
-				rt.A.StartContainer(context.Background(), &api.StateChangeEvent{Pod: pod, Container: &api.Container{Id: id, PodSandboxId: pod.Id}})
+				if e == 0 {
+					rt.A.StartContainer(context.Background(), &api.StateChangeEvent{Pod: pod, Container: &api.Container{Id: id, PodSandboxId: pod.Id}})
+				} else {
+					// every other request a runtime relays without a sync block takes its turn
+					c06Issue(rt.A, c08Unblocked[i%len(c08Unblocked)], id)
+					otherKinds.Add(1)
+				}
 				if i%16 == 0 {
 					time.Sleep(50 * time.Microsecond)
 				}
 			}
 		}(e)
 	}
-	stopEvents := func() { close(evStop); ewg.Wait() }
+	stopEvents := func() {
+		close(evStop)
+		ewg.Wait()
+		res.Count("unblocked_requests_of_11_other_kinds_relayed_during_registrations", otherKinds.Load())
+	}
 	delays := make([]time.Duration, nplugins)
 	for i := range delays {
 		delays[i] = time.Duration(g.IntN(perCreator*300)) * time.Microsecond
@@ -529,7 +541,7 @@ func init() {
 	register(&Check{
 		ID: "C08", Level: "exploration", MinNontriv: 3,
 		Anchors: []string{"pkg/adaptation/adaptation.go"},
-		Rule:    "rounds with 1-8 creator goroutines (BlockPluginSync; add to store; CreateContainer; Unblock, sometimes twice) and 2-6 stub plugins registering at seeded moments while creation runs, hook yields of 0-2 ms at the three synchronisation points in every other round; offline exactly-once oracle over snapshot ids and creation ids against the runtime's own store incl. a fence creation, online monitor of blocks held vs synchronisations in progress (both directions), bounded completion of pending registrations; every fifth round with 100 (one round: 190) ballast containers of 50 KiB under one pod so that snapshots are split in two (three) messages, plugin 0 there losing its first connection inside the second snapshot message and registering again with the same stub; one scenario per child with a sync block taken before Start and held across a registration and a creation; bounded-progress monitor between the hooks sync.request and sync.exclusive (all-blocks-released moments while a registration waits; alarm above 200); distinct = distinct (snapshot size bucket, event count bucket) splits observed per registration",
+		Rule:    "rounds with 1-8 creator goroutines (BlockPluginSync; add to store; CreateContainer; Unblock, sometimes twice) and 2-6 stub plugins registering at seeded moments while creation runs, hook yields of 0-2 ms at the three synchronisation points in every other round; offline exactly-once oracle over snapshot ids and creation ids against the runtime's own store incl. a fence creation, online monitor of blocks held vs synchronisations in progress (both directions), bounded completion of pending registrations; meanwhile two goroutines relay requests that need no sync block (one StartContainer, one rotating through the eleven other kinds besides CreateContainer, each with its own relay function) under the race detector; every fifth round with 100 (one round: 190) ballast containers of 50 KiB under one pod so that snapshots are split in two (three) messages, plugin 0 there losing its first connection inside the second snapshot message and registering again with the same stub; one scenario per child with a sync block taken before Start and held across a registration and a creation; bounded-progress monitor between the hooks sync.request and sync.exclusive (all-blocks-released moments while a registration waits; alarm above 200); distinct = distinct (snapshot size bucket, event count bucket) splits observed per registration",
 		Assumptions: []string{
 			"the runtime performs each creation together with its bookkeeping inside one plugin-sync block, as the documented contract requires",
 			"request/registration timeouts are set to 60 s so that a loaded machine cannot make a healthy plugin look dead",
@@ -544,4 +556,12 @@ func init() {
 		Parallel: func(string) int { return 4 },
 		Run:      runC08,
 	})
+}
+
+// c08Unblocked: the requests relayed without a sync block while registrations run (everything but
+// CreateContainer, which the exactly-once oracle tracks, and StartContainer, which the first goroutine sends).
+var c08Unblocked = []api.Event{
+	api.Event_RUN_POD_SANDBOX, api.Event_UPDATE_POD_SANDBOX, api.Event_POST_UPDATE_POD_SANDBOX, api.Event_STOP_POD_SANDBOX,
+	api.Event_REMOVE_POD_SANDBOX, api.Event_POST_CREATE_CONTAINER, api.Event_POST_START_CONTAINER, api.Event_UPDATE_CONTAINER,
+	api.Event_POST_UPDATE_CONTAINER, api.Event_STOP_CONTAINER, api.Event_REMOVE_CONTAINER,
 }
